@@ -82,6 +82,22 @@ CHECKS = {
          "Part A: token type(8) x presented identity(4) x proof mode(5, incl. an answer recorded on a previous real connection) x peer-row shape(15) x transport behaviour(8, incl. no answer and a late answer under paused time) on the real initialise_connection behind a real QueryService, oracle computed from the case parameters only (accepted, key bound, connected/invite-accepted emitted iff possession of the expected key was proved on this connection's challenge). Part B: every interleaving of open/handshake/consume of 2 (3) connections on one invitation, inviter and invitee side, same and different remote keys, on a real PeerManager over real databases and a socket-free endpoint; every single-bit (single-byte) corruption and truncation of the 108 invitation bytes; foreign application. Part C: token(a,b)=token(b,a), stability and distinctness for all ordered pairs of 64 key materials.",
          "Ed25519 unforgeability; paused clock is faithful for the 10 s timeout (no OS thread in part A); the harness plays the PeerConnectionService loop one message at a time. QUIC/TLS, multicast and beacon paths are not run.",
          "DESIGN.md section 5 C19"),
+
+ "C04": ("model_checking",
+         "bounded-exhaustive input-shape enumeration on the real parsers, mutation phases and query builder with typed round-trip, row-model, row-change-hook and SQL-token-structure oracles",
+         "Every string over 24 metacharacters up to length 3 (4 thorough), each as parameter, raw literal and fully escaped literal, plus integer / float / boolean / base64 / JSON / null / alias domains, in every position (mutation parameter and literal, update of another field, filter by parameter / alias / literal, model default added by a model update, search term, after/before value, alias, literal equal to a variable name) for every scalar type x {plain, nullable, default}; each block runs on a fresh in-memory database with decoy and bystander rows. Oracle: typed equality written vs read, equality filter returns exactly the rows of a harness row model, an insert/update touches exactly its own row (SQLite update hook) and reads touch nothing, every statement text the engine runs (sqlite3_trace) keeps the token structure learnt with benign values, no engine error or panic for an accepted value.",
+         "Light world only. The literal denotation is the JSON decoding of the token (findings that vanish under the reading 'only \\\" is an escape' are labelled literal-not-decoded). Strings longer than 4 and other code points are not covered.",
+         "DESIGN.md section 5 C04"),
+ "C09": ("model_checking",
+         "explicit-state search on the real batch writer and recompute pass (breadth-first by writes, depth-first over every commit split and recompute placement, SQLite backup snapshots) with an independent recomputation, a fresh-peer differential and a log-to-content injectivity oracle",
+         "Every history of up to 3 (4 thorough) local or synchronised writes on 3 rows x 2 rooms x 2 entities x 3 days (create, update same/later day, room move, node and reference deletion, ingested new row / newer version same or other room / deletion record of the stored or of a newer version / reference deletion record, all built by the real phases), every split of the queued messages into batches and every placement of the recomputation go through the real process_batch_write and DailyLogsUpdate::compute; after every batch each (room, entity, day) cell is either marked or equal to the harness's own count and blake3 over the ordered signatures; at every barrier no mark remains, the room log equals the log of a fresh peer that ingested the same content in one synchronisation (history hash included), and different contents have different logs.",
+         "Light world only (C03 compares logs between real converged peers). References are not part of content; times within a day are constant.",
+         "DESIGN.md section 5 C09"),
+ "C15": ("model_checking",
+         "explicit-state search over data-model version sequences on the real DataModel, pipeline and service (run-time and start-up paths), differential oracle, each transition applied repeatedly on fresh hash maps and in fresh processes",
+         "For every sequence of up to 2 (3 thorough) versions built from 85 edit operators at every applicable position of 3 base models (valid: add namespace/entity/field(s), defaults, nullability, deprecation, indexes, full text; invalid: remove/reorder/retype/rename, missing default, reserved names; mixed valid+invalid), with rows of every entity written under every version: an accepted version keeps every pre-existing value readable under the same name, storage identifiers stable, pairwise distinct and identical over 24 applications on freshly deserialised models and 2 fresh worker processes; a refused version leaves the in-memory model, _configuration, indexes, rows and query answers unchanged; re-applying the current text and restarting on the same folder change nothing. Depth-1 and a stratified depth-2 subset also run on the real service through update_data_model and restart.",
+         "Hash-map iteration orders are sampled by repetition (24 + 2x12 applications), not enumerated. Rows live outside rooms; no synchronisation between peers on different versions.",
+         "DESIGN.md section 5 C15"),
 }
 
 NOT_YET = {
